@@ -100,6 +100,7 @@ func c03Run(r *engine.Run) int {
 			cases = append(cases, engine.J(c03Case{Scen: i, Retire: o, Bound: bound}))
 		}
 	}
+	engine.CaseTimeout = 45 * time.Minute // these cases run a whole schedule search under their own time budget
 	engine.Map("c03", cases, func(i int, c json.RawMessage, res *engine.Result) {
 		r.Add("c03", c, res)
 		if res.Data != nil {
